@@ -6,6 +6,9 @@ def T(shards=8, procs=2, timeout=600, **kw):
     return d
 
 CHECKS = {
+    "C13": {"pkg": "c13", "level": "exploration",
+            "quick": T(8, 2, 600), "thorough": T(14, 1, 2400),
+            "assumptions": ["cookie unpredictability is not testable; only what the server emits and when"]},
     "C17": {"pkg": "c17", "level": "exploration",
             "quick": T(8, 2, 600), "thorough": T(14, 1, 2400),
             "assumptions": ["timer law checked at the granularity of emissions on the injected PacketConn, on the virtual clock", "flight intervals above 60 s are not generated"]},
